@@ -80,6 +80,7 @@ only a smoke test); randomness taken from any source other than np.random.randin
 enumeration would be incomplete); that inputs are not modified (C12); the callers that rely on the order agreement (C04).
 """
 import itertools
+import warnings
 
 import numpy as np
 
@@ -451,6 +452,19 @@ def _prediction(case):
     pred, psrc = _source(pcase, base=50000, n_rdm=1)
     if case.get('pred') == 'model':
         pred = ModelFixed('m', pred).predict_rdm()
+    elif case.get('pred') == 'model-reordered':
+        # the model RDM was stored in another condition order and brought into the order of the data with RDMs.reorder (which
+        # permutes every pattern descriptor, also 'index'); the fixed model built from it predicts in the order of the data
+        from rsatoolbox.rdm import RDMs
+        n = psrc['n_cond']
+        order = list(range(1, n)) + [0]
+        mat = psrc['mat'][0][np.ix_(order, order)]
+        vec = [mat[i, j] for i in range(n) for j in range(i + 1, n)]
+        cont = pcase.get('container', 'list')
+        pd = {k: _wrap([v[o] for o in order], cont) for k, v in psrc['pdesc'].items() if k != 'index'}
+        stored = RDMs(np.array([vec], dtype=float), dissimilarity_measure='sentinel', pattern_descriptors=pd)
+        stored.reorder(np.argsort(order))
+        pred = ModelFixed('m', stored).predict_rdm()
     return pred, psrc
 
 
@@ -749,6 +763,65 @@ def orc_subsample_pattern(case):
             if len(fails) >= MAX_FAILS:
                 break
     return _summary(n, fails, 'value vectors')
+
+
+def _rng_intervening(name, rs):
+    """a library call a user makes BETWEEN two bootstrap draws (fitting / evaluating models on the previous sample)"""
+    from rsatoolbox.rdm import RDMs
+    from rsatoolbox.model import ModelWeighted, ModelFixed, ModelSelect
+    import rsatoolbox.model.fitter as ft
+    import rsatoolbox.inference as inf
+    basis = RDMs(rs.rand(3, 10) + 0.1)
+    data = RDMs(rs.rand(4, 10) + 0.1)
+    mw = ModelWeighted('w', basis)
+    if name.startswith('fit_optimize_positive'):
+        return lambda: ft.fit_optimize_positive(mw, data, method='cosine')
+    if name.startswith('fit_optimize'):
+        return lambda: ft.fit_optimize(mw, data, method='cosine', normalize=name.endswith('normalize=True'))
+    if name == 'fit_regress':
+        return lambda: ft.fit_regress(mw, data, method='corr')
+    if name == 'fit_select':
+        return lambda: ft.fit_select(ModelSelect('s', basis), data, method='cosine')
+    if name == 'eval_fixed':
+        return lambda: inf.eval_fixed([ModelFixed('f', rs.rand(10) + 0.1)], data, method='cosine')
+    if name == 'crossval':
+        def f():
+            big = RDMs(rs.rand(4, 45) + 0.1)
+            tr, te, ce = inf.sets_k_fold(big, k_pattern=2, k_rdm=2, random=False)
+            return inf.crossval(ModelWeighted('w', RDMs(rs.rand(2, 45) + 0.1)), big, tr, te, ceil_set=ce, method='cosine')
+        return f
+    raise ValueError(name)
+
+
+@oracle('C09/rng-not-reset')
+def orc_rng_not_reset(case):
+    """draws stay random when other library routines are called between them: after seeding numpy's global generator with two
+    DIFFERENT seeds, calling the routine and drawing, the two draws differ (they coincide by chance with probability < 1e-12
+    here) -- a routine that leaves the generator in a fixed state makes every later draw of a bootstrap loop identical, and
+    'each group is selected equally often over many draws' fails"""
+    import contextlib
+    import io
+    from rsatoolbox.rdm import RDMs
+    from rsatoolbox.inference import bootstrap_sample_rdm, bootstrap_sample_pattern
+    rs = np.random.RandomState(case['seed'])
+    data = RDMs(rs.rand(8, 36) + 0.1)
+    call = _rng_intervening(case['routine'], rs)
+    state = np.random.get_state()
+    try:
+        draws = []
+        for sd in (4711 + case['seed'], 815 + case['seed']):
+            np.random.seed(sd)
+            with warnings.catch_warnings(), contextlib.redirect_stderr(io.StringIO()):
+                warnings.simplefilter('ignore')
+                call()
+            draws.append([int(x) for x in bootstrap_sample_rdm(data)[1]] + [int(x) for x in bootstrap_sample_pattern(data)[1]])
+    finally:
+        np.random.set_state(state)
+    if draws[0] == draws[1]:
+        return (f"after seeding numpy's generator with two different seeds and calling {case['routine']}, the next draws of "
+                f'bootstrap_sample_rdm / bootstrap_sample_pattern are IDENTICAL ({draws[0]}): the routine leaves the global '
+                f'generator in a fixed state')
+    return None
 
 
 @oracle('C09/frequency-smoke')
@@ -1051,6 +1124,11 @@ def tier_c(run, thorough):
                              function='bootstrap_sample')
         case = dict(n_rdm=n_rdm, n_cond=n_cond, rg=None, pg=None, container='list', default_args=True, pred='model')
         bd.check(orc_joint, case, 'default-index,list', function='bootstrap_sample')
+        if n_cond >= 3:
+            bd.check(orc_joint, dict(case, pred='model-reordered'), 'default-index,prediction-of-ModelFixed-from-reordered-RDMs',
+                     function='bootstrap_sample')
+            bd.check(orc_pattern, dict(case, pred='model-reordered'), 'default-index,prediction-of-ModelFixed-from-reordered-RDMs',
+                     function='bootstrap_sample_pattern')
     for n_rdm, n_cond in ([(2, 3), (2, 4), (3, 3)] if thorough else [(2, 2), (2, 3)]):
         for name, kind, cont, extra in variants:
             if n_cond == (4 if thorough else 3) and not _key((name, kind, cont, extra)):
@@ -1197,6 +1275,18 @@ def tier_c(run, thorough):
         case = dict(n_rdm=n_rdm, n_cond=n_cond, rg=None, pg=None, container='array', default_args=True, pred='rdms', held=True,
                     sampled=dict(seed=9100, n=n_streams))
         bd.check(orc_joint, case, 'default-index,larger-sizes', function='bootstrap_sample')
+    bd.done()
+    bds.append(bd)
+
+    # ---- the global generator is not reset by routines called between draws -------------------------------------------------
+    bd = Bounded(run, 'C09/rng-not-reset', 'C09/bootstrap_sample/oracle/draws-stay-random-between-other-library-calls',
+                 'a fit / evaluation between seeding and drawing: fit_optimize (normalize on / off), fit_optimize_positive, fit_regress, '
+                 'fit_select, eval_fixed, crossval; two different seeds must give different draws (8 RDMs x 9 conditions)',
+                 exhaustive=False, function='bootstrap_sample')
+    for k, routine in enumerate(('fit_optimize,normalize=True', 'fit_optimize,normalize=False', 'fit_optimize_positive', 'fit_regress',
+                                 'fit_select', 'eval_fixed', 'crossval')):
+        for seed in range(2 if thorough else 1):
+            bd.check(orc_rng_not_reset, dict(seed=seed + k, routine=routine), 'intervening-library-call', function='bootstrap_sample')
     bd.done()
     bds.append(bd)
 
